@@ -58,6 +58,12 @@ type wBitmap struct {
 	s32rRank []int32
 	ones     int32
 	pos      []int32 // ascending positions of the 1-bits (harness's own)
+	// three consecutive sub-slices of pos (their capacity runs on into the next
+	// one) and a size for each: arguments for OfMany
+	segs  [][]int32
+	sizes []int32
+	// a TailBitmap holding the same bits (only ever read by the tasks)
+	tail *bitmap.TailBitmap
 }
 
 type wKeys struct {
@@ -330,6 +336,19 @@ func buildWorld(spec WorldSpec) *world {
 		b.r128 = a.i32s(ownIndexRank128(words))
 		b.s32 = a.i32s(ownIndexSelect32(pos))
 		b.s32r, b.s32rRank = a.i32s(ownIndexSelect32(pos)), a.i32s(ownIndexRank64(words, true))
+		k1, k2 := len(b.pos)/3, 2*len(b.pos)/3
+		b.segs = [][]int32{b.pos[:k1], b.pos[k1:k2], b.pos[k2:]}
+		for _, sg := range b.segs {
+			sz := int32(1)
+			if len(sg) > 0 {
+				sz = sg[len(sg)-1] + 1
+			}
+			b.sizes = append(b.sizes, sz)
+		}
+		b.tail = bitmap.NewTailBitmap(64)
+		for _, q := range pos {
+			b.tail.Set(int64(q) + 64)
+		}
 		w.bitmaps = append(w.bitmaps, b)
 	}
 	for _, ks := range spec.Keys {
